@@ -73,6 +73,14 @@ decl("pkgb", "hid", ("struct", [("Z", False, "", I_)]))     # unexported, reacha
 decl("main", "MyInt", I_, methods=[M("String", False, [], [S_], 'return "MyInt(" + itoa(int(x)) + ")"'),
                                     M("Inc", True, [I_], [I_], "*x += MyInt(a0); return int(*x)"),
                                     M("Twice", False, [], [N("main", "MyInt")], "return x * 2")])
+decl("main", "Code", I_, methods=[M("Error", False, [], [S_], 'return "E" + itoa(int(x))')])
+# unexported struct with exported fields of Stringer / error types, embedded by value and by pointer below
+decl("main", "inner", ("struct", [("N", False, "", N("main", "MyInt")), ("C", False, "", N("main", "Code")), ("Q", False, "", I_),
+                                  ("note", False, "", S_), ("Extra", False, "", ("slice", N("main", "MyInt")))]),
+     methods=[M("Tag", False, [], [S_], 'return "in" + x.note')])
+decl("main", "Hold", ("struct", [("inner", True, "", N("main", "inner")), ("Y", False, "", I_)]))
+decl("main", "PHold", ("struct", [("inner", True, "", ("ptr", N("main", "inner"))), ("Z", False, "", S_)]))
+decl("main", "Hold2", ("struct", [("Hold", True, "", N("main", "Hold")), ("W", False, "", N("main", "Code"))]))
 decl("main", "MyStr", S_)
 decl("main", "MyFloat", B("float64"), methods=[M("Half", False, [], [B("float64")], "return float64(x) / 2")])
 decl("main", "MyBool", B("bool"))
@@ -137,6 +145,7 @@ NAMED_POOL = [N("main", "MyInt"), N("main", "MyStr"), N("main", "MyFloat"), N("m
               N("main", "Node", N("main", "Node", B("byte"))),
               N("main", "Iface"), N("main", "Strer"), N("main", "Empty"), N("main", "U"), N("main", "Outer"),
               N("main", "Tagged"), N("main", "ErrT"), N("main", "GoS"),
+              N("main", "Code"), N("main", "inner"), N("main", "Hold"), N("main", "PHold"), N("main", "Hold2"),
               N("pkgb", "Item"), N("pkgb", "Num"), N("pkgb", "Pair", S_, I_), N("pkgb", "Pair", N("main", "MyInt"), N("pkgb", "Item")),
               N("pkgb", "Pair", N("pkgb", "Num"), ("ptr", N("main", "Rec"))),
               N("pkgb", "Ptr"), N("pkgb", "Fn"), N("pkgb", "Shape"), ERR]
@@ -509,6 +518,10 @@ FIXED_TYPES = [
     ("ptr", N("main", "Rec")), ("ptr", N("pkgb", "Item")), ("ptr", N("main", "ErrT")), ("ptr", N("main", "GoS")),
     ("ptr", N("main", "Outer")), ("ptr", N("main", "Sl")), ("ptr", N("main", "Fn0")),
     ("ptr", ("struct", [("Emb", True, "", N("main", "Emb"))])),
+    ("slice", N("main", "Hold")), ("map", S_, N("main", "Hold")), ("ptr", N("main", "Hold")), ("ptr", N("main", "PHold")),
+    ("array", 2, N("main", "Hold2")), ("struct", [("inner", True, "", N("main", "inner")), ("Code", True, "", N("main", "Code"))]),
+    ("struct", [("inner", True, "j", ("ptr", N("main", "inner"))), ("A", False, "", ("slice", N("main", "Hold")))]),
+    ("map", N("main", "Code"), ("slice", N("main", "inner"))),
     ("ptr", ("struct", [("Emb", True, "", ("ptr", N("main", "Emb"))), ("U", True, "", N("main", "U"))])),
 ]
 
@@ -912,6 +925,10 @@ def main_gen_go(types, seed, nvals):
         body.append('\tdeq("V%d.self", mkD%d(), mkD%d())' % (i, i, i))
         body.append('\tdeq("V%d.other", mkD%d(), mkE%d())' % (i, i, i))
         body.append('\tattr("V%d.deep", "dump", func() string { return dump(reflect.ValueOf(mkD%d()), 0) })' % (i, i))
+        body.append('\tattr("V%d.addr", "dump", func() string { return dump(reflect.ValueOf(ptrOf(mkC%d())).Elem(), 0) })' % (i, i))
+        body.append('\tsetAll("V%d", reflect.ValueOf(ptrOf(mkC%d())).Elem())' % (i, i))
+        if underlying(t)[0] in ("slice", "array", "map", "ptr", "struct"):
+            body.append('\tdeqAlias("V%d", mkD%d())' % (i, i))
         vals.append(dict(i=i, fmt=a, d1=d1, d2=d2))
     body += ["\tstaticDeepEqual()", "\tstaticConvert()", "\tstaticSetGet()", "\tstaticFmt()"]
     rfs = rand_formats(seed, 250)
